@@ -41,7 +41,7 @@ def int_(x=0, *a):
         return x._as_int()
     if isinstance(x, str) and _sym_mode() and not a:
         v = core.CUR.parse_int(x)
-        if v is not None:
+        if v is not None and isinstance(v, SymInt):
             return v
     return _builtin_int(x, *a)
 
@@ -56,7 +56,7 @@ def float_(x=0.0):
     if isinstance(x, str) and _sym_mode():
         v = core.CUR.parse_int(x)
         if v is not None:
-            return SymReal(z3.ToReal(v.t))
+            return v if isinstance(v, SymReal) else SymReal(z3.ToReal(v.t))
     return _builtin_float(x)
 
 
